@@ -168,7 +168,18 @@ class World:
         call.setdefault('sa', [])
         call.setdefault('va', [])
         call.setdefault('xs', [])
-        ev = {'tid': tid, 'seq': seq, 'op': opname, 't': call['t'], 'ia': list(call['ia']),
+        drop = list(call.get('drop', []))
+        if opname == 'mk' and call.get('rid') in self.objs and call['rid'] not in drop:
+            drop.append(call['rid'])
+        if '*' in drop:
+            drop = list(self.objs.keys())
+        elif 'r*' in drop:
+            # everything returned by earlier calls (ids r<seq>_<k>), keeping the named objects
+            drop = [k for k in self.objs if k.startswith('r') and k[1:2].isdigit()]
+        for d in drop:
+            self.objs.pop(d, None)
+            self.last.pop(d, None)
+        ev = {'tid': tid, 'seq': seq, 'op': opname, 't': call['t'], 'drop': drop, 'ia': list(call['ia']),
               'sa': list(call['sa']), 'va': [list(v) for v in call['va']],
               'xs': [self.describe_operand(x) for x in call['xs']], 'opts': self.opts()}
         out = {'k': 'ok', 'exc': [], 'ename': '', 'vals': [], 'ids': [], 'alias': []}
@@ -264,7 +275,8 @@ def _mk(w, c):
         return cls(bytes=w.make_lit('bytes', tot), length=n, offset=3, **kw)
     if route == 'slice':
         big = cls(bin='101' + s + '01')
-        r = big[3:3 + n]
+        # the same stored window in either bit-numbering mode
+        r = big[2:2 + n] if w.bs.options.lsb0 else big[3:3 + n]
         if pos is not None:
             r.pos = pos
         return r
@@ -334,7 +346,7 @@ def _bool(w, c):
 def _iter(w, c):
     r = list(iter(T(w, c)))
     if not all(isinstance(e, bool) for e in r):
-        return [13]
+        return enc.OPAQUE
     return r
 
 
@@ -639,13 +651,13 @@ def _copy_c(w, c):
 @op('eq')
 def _eq(w, c):
     r = T(w, c) == w.operand(c['xs'][0])
-    return r if isinstance(r, bool) else [13]
+    return r if isinstance(r, bool) else enc.OPAQUE
 
 
 @op('ne')
 def _ne(w, c):
     r = T(w, c) != w.operand(c['xs'][0])
-    return r if isinstance(r, bool) else [13]
+    return r if isinstance(r, bool) else enc.OPAQUE
 
 
 @op('eq_py')
@@ -655,13 +667,24 @@ def _eq_py(w, c):
     v = {'int': 5, 'float': 1.5, 'none': None, 'object': object(), 'zero': 0, 'dict': {}}[k]
     t = T(w, c)
     r = (t != v) if c['ia'][0] else (t == v)
-    return r if isinstance(r, bool) else [13]
+    return r if isinstance(r, bool) else enc.OPAQUE
+
+
+def _hashable_operand(w, c):
+    """The operand as a hashable bitstring: Bits / ConstBitStream objects as they are, anything else
+    promoted through the constructor of one of the two immutable classes (so equal values reach the
+    comparison by many construction routes)."""
+    x = w.operand(c['xs'][0])
+    if isinstance(x, w.bs.Bits) and not isinstance(x, w.bs.BitArray):
+        return x
+    cls = w.bs.ConstBitStream if (len(c['xs'][0].get('v', [])) + len(c['xs'][0].get('kind', ''))) % 2 else w.bs.Bits
+    return cls(x)
 
 
 @op('hasheq')
 def _hasheq(w, c):
     """hash(t) == hash(x) ? (x an object operand)"""
-    return hash(T(w, c)) == hash(w.operand(c['xs'][0]))
+    return hash(T(w, c)) == hash(_hashable_operand(w, c))
 
 
 @op('hashable')
@@ -676,7 +699,7 @@ def _hashable(w, c):
 @op('inset')
 def _inset(w, c):
     """x in {t} and {t: 1}[x] for object operand x"""
-    t, x = T(w, c), w.operand(c['xs'][0])
+    t, x = T(w, c), _hashable_operand(w, c)
     return (x in {t}) and ({t: 1}.get(x) == 1)
 
 
@@ -762,7 +785,7 @@ def _find(w, c):
     a, b, ba = (N(x) for x in c['ia'][:3])
     r = T(w, c).find(w.operand(c['xs'][0]), a, b, **_bakw(ba))
     if not isinstance(r, tuple):
-        return [13]
+        return enc.OPAQUE
     return r
 
 
@@ -771,7 +794,7 @@ def _rfind(w, c):
     a, b, ba = (N(x) for x in c['ia'][:3])
     r = T(w, c).rfind(w.operand(c['xs'][0]), a, b, **_bakw(ba))
     if not isinstance(r, tuple):
-        return [13]
+        return enc.OPAQUE
     return r
 
 
